@@ -40,6 +40,9 @@ CPUS = {
     'atmega8:codesegsize=0': (0x3d, 1, 'data', None, None, 2),
     # 68000 with PADDING ON: a word at an odd address is preceded by an emitted pad byte 00, a reserved word by a reserved byte
     '68000p': (0x01, 1, 'dc.b', 'ds.b', '\tpadding on'),
+    # 16-bit ADR words of the 65xx (little endian) and 68xx (big endian) families in one program
+    '6502': (0x11, 1, 'byt', 'dfs', None),
+    '6800': (0x61, 1, 'byt', 'rmb', None),
 }
 STMT = {'68000p': '68000'}
 # target -> (initial cpu or None for default, partner cpu for CPU switches, has data segment)
@@ -51,6 +54,8 @@ TARGETS = {
     'default': (None, 'z80', False),
     'avrargs': ('atmega8', 'atmega8:codesegsize=0', True),
     '68000pad': ('68000p', 'z80', False),
+    'adr65': ('6502', '6800', False),
+    'adr68': ('6800', '6502', False),
 }
 B_FULL = [1, 2, 3, 255, 256, 257, 510, 511, 512, 513, 514, 1024]
 B_Q = [1, 511, 512, 513]
@@ -131,6 +136,17 @@ class Model(object):
             self.lines.append('\t%s %s' % (mn, ','.join(p for p in parts if not p.startswith('0 dup') and not p.startswith('[0]'))))
             self.put(vals)
 
+    def adr(self, n):
+        """ADR: 16-bit words in the byte order of the CURRENT family"""
+        fam = CPUS[self.cpu][0]
+        vals = [0x1200 + self.nextval() for _ in range(n)]
+        self.lines.append('\tadr ' + ','.join(str(v) for v in vals))
+        for v in vals:
+            bs = v.to_bytes(2, 'little' if self.cpu == '6502' else 'big')
+            for b in bs:
+                self.mem[(1, 1, self.pc)] = (b, fam)
+                self.pc += 1
+
     def sep(self, s):
         if s == 'res1':
             r = CPUS[self.cpu][3]
@@ -155,10 +171,16 @@ class Model(object):
                     self.lines.append(CPUS[self.cpu][4])
             else:
                 self.lines.append('\tcpu ' + self.cpu)   # re-selecting the same CPU still closes the record
-        elif s == 'end':
-            self.entry = self.pc
-            self.lines.append('\tend %d' % self.pc)
+        elif s in ('end', 'endbare'):
+            if s == 'end':
+                self.entry = self.pc
+                self.lines.append('\tend %d' % self.pc)
+            else:
+                self.lines.append('\tend')
             self.ended = True
+            # whatever follows END is not part of the program
+            mn = CPUS[self.cpu][2]
+            self.lines += ['\t%s 77,78' % mn, '\torg %d' % (self.pc + 40), '\t%s 79' % mn]
 
 
 def build(case):
@@ -196,6 +218,8 @@ def build(case):
             elif op[0] == 'W':
                 if m.cpu == '68000p':
                     m.words(int(op[1:]))
+                elif m.cpu in ('6502', '6800'):
+                    m.adr(max(1, int(op[1:])))
                 else:
                     m.emit(1, 'lines')
             else:
@@ -216,8 +240,8 @@ def subspaces(tier):
                     for style in ('lines', 'one'):
                         if style == 'one' and t in ('avr', 'c30', 'avrargs'):
                             continue
-                        if t == '68000pad':
-                            continue        # only differs from 68000 through the word ops of family (c)
+                        if t in ('68000pad', 'adr65', 'adr68'):
+                            continue        # only differ through the word ops of family (c)
                         if t == 'avrargs' and 256 + 2 * sum(ns) > 4000:
                             continue        # (the ATmega8 has 4K words of program memory: beyond that "address overflow" is the documented answer)
                         if not q and len(B) > 4 and style == 'one' and sp != ('none', 'none') and ns[1] not in B_Q:
@@ -236,7 +260,7 @@ def subspaces(tier):
                     for fin in ('none', 'res1', 'org'):
                         yield {'k': 'b', 't': t, 'prefix': p, 'tail': tail, 'fin': fin}
     subs.append(('b:record-limit', fam_b()))
-    ops = ['E1', 'E511', 'E512', 'E513', 'B511', 'B512', 'B513', 'res1', 'org', 'seg', 'cpu', 'end']
+    ops = ['E1', 'E511', 'E512', 'E513', 'B511', 'B512', 'B513', 'res1', 'org', 'seg', 'cpu', 'end', 'endbare']
     n = 3 if q else 4
 
     def fam_c():
@@ -245,7 +269,7 @@ def subspaces(tier):
                 for s in itertools.product(ops, repeat=k):
                     if t in ('avr', 'c30', 'avrargs') and any(o[0] == 'B' for o in s):
                         continue
-                    if t == '68000pad':
+                    if t in ('68000pad', 'adr65', 'adr68'):
                         continue
                     yield {'k': 'c', 't': t, 'ops': list(s)}
         pops = ['E1', 'E2', 'E511', 'E512', 'W1', 'W3', 'W0', 'res1', 'org', 'cpu', 'end']
@@ -253,6 +277,12 @@ def subspaces(tier):
             for s in itertools.product(pops, repeat=k):
                 if any(o[0] == 'W' for o in s):
                     yield {'k': 'c', 't': '68000pad', 'ops': list(s)}
+        aops = ['E1', 'W1', 'W2', 'cpu', 'org', 'res1']
+        for t in ('adr65', 'adr68'):
+            for k in range(1, n + 2):
+                for s in itertools.product(aops, repeat=k):
+                    if any(o[0] == 'W' for o in s) and 'cpu' in s:
+                        yield {'k': 'c', 't': t, 'ops': list(s)}
     subs.append(('c:op-sequences<=%d' % n, fam_c()))
     return subs
 
